@@ -147,6 +147,19 @@ let handle (fs : string list) : string =
         | Raise e -> show_exn e
         | Ok r -> "ok " ^ String.concat ";" (List.filter_map (fun f ->
             if shares_field f.f_name r then Some (field_of_str f.f_name) else None) Model.fields)))
+  | ["mdparser"; imp; kw; hl] ->
+    (* the abstract description of the parser that create_md_parser builds for MdParserConfig( **kw) *)
+    (match mk_config (env_of imp) Model.fields (parse_kwargs kw) with
+     | Raise e -> show_exn e
+     | Ok c ->
+       let d = create_md_parser_src (hl = "1") c in
+       let opts o = String.concat "," (List.map (fun (k, v) -> field_of_str k ^ "=" ^ show_jv v) o) in
+       let step = function
+         | PEnable r -> "enable(" ^ field_of_str r ^ ")"
+         | PDisable r -> "disable(" ^ show_jv r ^ ")"
+         | PUse (p, o) -> "use(" ^ field_of_str p ^ ":" ^ opts o ^ ")"
+         | PLinkifySet o -> "linkify.set(" ^ opts o ^ ")" in
+       "ok " ^ field_of_str d.pd_preset ^ " | " ^ String.concat " ; " (List.map step d.pd_steps) ^ " | " ^ opts d.pd_options)
   | ["reach"] ->
     (* rules of the option-string if-chain that decide no docutils-visible field; and per field its rule *)
     String.concat "," (List.map (fun i -> string_of_int (int_of_nat i)) (unused_rule_indices optparse_rules Model.fields))
